@@ -33,8 +33,7 @@ done
 if [ -n "$(git diff --name-only --diff-filter=U)" ]; then echo "conflicts remain"; exit 1; fi
 # hashes of fix commits named by the builder refer to its branch: rewrite to main's
 python3 tools/merge_kf.py wt-$C >/dev/null 2>&1
-# package-main helper names may clash between builders' harness files: prefix the newcomer's
-( cd harness && cp /repo/go.sum . && for i in 1 2 3 4 5 6 7 8 9 10; do out=$(go build -tags verif -o /dev/null . 2>&1); f=$(echo "$out" | grep -m1 "redeclared" | sed 's/^\.\/\([a-z0-9_]*\.go\):.*: \([A-Za-z0-9_]*\) redeclared.*/\1 \2/'); [ -z "$f" ] && break; set -- $f; pfx=$(echo $1 | sed 's/\.go//'); sed -i "s/\b$2\b/${pfx}_$2/g" $1; echo "renamed $2 in $1"; done; go build -tags verif -o /dev/null . 2>&1 | head -5 )
+tools/fix_clashes.sh
 python3 tools/mk_manifest.py
 git add -A && git commit -qm "Merge $PROPS (builder branch wt-$C)" 
 for P in $PROPS; do
